@@ -38,6 +38,37 @@ func ints(names ...string) []ColDef {
 var my = runCfg{dialect: "mysql"}
 
 var pairWitnesses = []witness{
+	// shapes the stored seeded changes needed (seeded/<id>/meta.json): kept as fixed cases so that their detection does
+	// not depend on what the random generator happens to produce
+	// C01-c: one side is a history with a MODIFY COLUMN detour whose first definition carried a comment
+	{"w-modify-detour-comment", my,
+		[]Stmt{tbl("t", col("a", "int(11)"), col("c", "longtext", Opt{Kind: "comment", Val: "draft"})), {Kind: "modifyColumn", T: "t", Col: col("c", "longtext")}},
+		[]Stmt{tbl("t", col("a", "int(11)"), col("c", "longtext"))}},
+	// C02-a: two adjacent columns of the old table dropped by one diff
+	{"w-adjacent-drops", my, []Stmt{tbl("t", ints("a", "b", "c", "d")...)}, []Stmt{tbl("t", ints("a", "d")...)}},
+	// C02-b: an index redefined under its name, with another index type on the old side
+	{"w-index-redefined-other-type", my,
+		[]Stmt{tbl("t", col("id", "int(11)", oNotNull, oPk), col("a", "int(11)"), col("b", "int(11)")), {Kind: "createIndex", T: "t", A: "ix", Pk: []string{"a"}, Using: "HASH"}},
+		[]Stmt{tbl("t", col("id", "int(11)", oNotNull, oPk), col("a", "int(11)"), col("b", "int(11)")), idx("t", "ix", false, "a", "b")}},
+	// C02-c: a modified column with a column dropped / added in front of it
+	{"w-modified-behind-dropped", my,
+		[]Stmt{tbl("t", col("id", "int(11)"), col("code", "varchar(64)"), col("name", "varchar(64)", oNotNull), col("age", "int(11)"))},
+		[]Stmt{tbl("t", col("id", "int(11)"), col("name", "varchar(255)"), col("age", "int(11)"))}},
+	{"w-modified-behind-added", my,
+		[]Stmt{tbl("t", col("id", "int(11)"), col("name", "varchar(64)", oNotNull), col("age", "int(11)"))},
+		[]Stmt{tbl("t", col("id", "int(11)"), col("code", "varchar(64)"), col("name", "varchar(255)"), col("age", "int(11)"))}},
+	// C13-a: a column added right behind a modified column
+	{"w-add-after-modified", my,
+		[]Stmt{tbl("t", col("a", "int(11)"), col("b", "int(11)"))},
+		[]Stmt{tbl("t", col("a", "bigint(20)"), col("n", "int(11)"), col("b", "int(11)"))}},
+	// seeded changes C01-a / C01-b: a foreign key dropped together with its own column (referencing and referenced
+	// column names differ), and a foreign key dropped while a sibling column named like the referenced column is dropped
+	{"w-fk-dropped-with-its-column", my,
+		[]Stmt{tbl("u", col("id", "int(11)", oNotNull, oPk)), tbl("t", ints("id", "uid")...), fk("t", "fk_u_t", "uid", "u", "id")},
+		[]Stmt{tbl("u", col("id", "int(11)", oNotNull, oPk)), tbl("t", ints("id")...)}},
+	{"w-fk-dropped-sibling-column-dropped", my,
+		[]Stmt{tbl("u", col("code", "int(11)", oNotNull, oPk)), tbl("t", ints("id", "ucode", "code")...), fk("t", "fk_u_t", "ucode", "u", "code")},
+		[]Stmt{tbl("u", col("code", "int(11)", oNotNull, oPk)), tbl("t", ints("id", "ucode")...)}},
 	// seeded change C01-d: the set of dropped columns must be per table — an earlier table drops column `code`, a later
 	// table keeps its own `code` and drops the index / foreign key on it
 	{"w-cross-table-dropped-column-index", my,
@@ -134,6 +165,16 @@ var scriptWitnesses = []scriptWitness{
 	{"w-KF-rename-column", my, []Stmt{tbl("t", ints("a", "b")...), idx("t", "i", false, "a"), {Kind: "renameColumn", T: "t", A: "a", B: "z"}}},
 	{"w-KF-postgres-reader-vocabulary", pg, []Stmt{tbl("t", col("a", "INT8", oNotNull)), tbl("u", typed("INT8", "x")...), idx("t", "i", false, "a")}},
 	{"w-KF-sqlite-reader-vocabulary", lite, []Stmt{tbl("t", col("a", "INTEGER", oDef("1")))}},
+	// C05-a: a positional ADD COLUMN names its table while the cursor is on another one
+	{"w-position-other-table", my, []Stmt{tbl("t", ints("a", "b")...), tbl("u", ints("x")...), {Kind: "addColumn", T: "t", Col: col("c", "int(11)"), Pos: "after", After: "a"}}},
+	// C05-b: postgres ADD COLUMN on an earlier table, then an index on the table created last
+	{"w-pg-add-column-then-index", pg, []Stmt{tbl("a", typed("INT8", "id")...), tbl("b", typed("INT8", "id", "k")...), {Kind: "addColumn", T: "a", Col: col("n", "INT8"), Pos: "none"}, idx("b", "idx_b_k", false, "k")}},
+	// C05-c / C09-a / C09-b: two indexes, the first dropped, then the second named again; a column with its own index dropped
+	{"w-drop-first-index-then-rename-second", my, []Stmt{tbl("t", ints("a", "b", "c")...), idx("t", "i1", false, "a"), idx("t", "i2", false, "b"), {Kind: "dropIndex", T: "t", A: "i1"}, {Kind: "renameIndex", T: "t", A: "i2", B: "j2"}}},
+	{"w-drop-first-index-then-drop-second", my, []Stmt{tbl("t", ints("a", "b", "c")...), idx("t", "i1", false, "a"), idx("t", "i2", true, "b"), {Kind: "dropIndex", T: "t", A: "i1"}, {Kind: "dropIndex", T: "t", A: "i2"}}},
+	{"w-drop-column-with-first-of-two-indexes", my, []Stmt{tbl("t", col("id", "int(11)", oNotNull, oPk), col("a", "int(11)"), col("b", "int(11)")), idx("t", "idx_a", false, "a"), idx("t", "idx_b", false, "b"), {Kind: "dropColumn", T: "t", A: "a"}}},
+	// C09-d: a created table whose non-first column was renamed to the longest name
+	{"w-rename-to-longest-name", my, []Stmt{tbl("city", col("id", "int(11)", oNotNull, oPk), col("nm", "varchar(64)"), col("zip", "int(11)")), {Kind: "renameColumn", T: "city", A: "nm", B: "display_name"}}},
 	// seeded change C05-d: an index names its table; it is not filed under the table created last
 	{"w-index-on-earlier-table-sqlite", lite, []Stmt{tbl("a", typed("INTEGER", "id", "name")...), tbl("b", typed("INTEGER", "id")...), idx("a", "idx_a_name", false, "name")}},
 	{"w-index-on-earlier-table-mysql", my, []Stmt{tbl("a", ints("id", "name")...), tbl("b", ints("id")...), idx("a", "idx_a_name", false, "name")}},
